@@ -77,7 +77,7 @@ func toMails(l []models.Addr) []*mail.Address {
 // delivery builds the storage.Message handed to AddMessage.
 func delivery(m *models.Msg) *message.Delivery {
 	return &message.Delivery{
-		Meta: event.MessageMetadata{Mailbox: m.Mailbox, From: toMail(m.From), To: toMails(m.To), Date: m.Date, Subject: m.Subject},
+		Meta:   event.MessageMetadata{Mailbox: m.Mailbox, From: toMail(m.From), To: toMails(m.To), Date: m.Date, Subject: m.Subject},
 		Reader: bytes.NewReader(m.Body),
 	}
 }
@@ -205,6 +205,23 @@ var collidingNames = func() [][]string {
 	return groups
 }()
 
+// deepCollidingNames share the first SIX hex digits of their sha1: the same
+// second-level directory in the file store (found by brute force at start-up).
+var deepCollidingNames = func() [][]string {
+	byPrefix := map[string]string{}
+	var groups [][]string
+	for i := 0; i < 60000 && len(groups) < 6; i++ {
+		n := "w" + strconv.Itoa(i)
+		p := mailboxHash(n)[:6]
+		if other, ok := byPrefix[p]; ok {
+			groups = append(groups, []string{other, n})
+		} else {
+			byPrefix[p] = n
+		}
+	}
+	return groups
+}()
+
 var plainNames = []string{"alice", "bob", "carol", "dave", "eve", "frank"}
 
 var oddNames = []string{
@@ -216,14 +233,19 @@ var oddNames = []string{
 func pickNames(w *simrt.Choices, n int, allowOdd bool) []string {
 	seen := map[string]bool{}
 	var out []string
-	var grp []string
+	var grp, deep []string
 	if len(collidingNames) > 0 {
 		grp = collidingNames[w.Choose(len(collidingNames))]
+	}
+	if len(deepCollidingNames) > 0 && w.Choose(3) == 0 {
+		deep = deepCollidingNames[w.Choose(len(deepCollidingNames))]
 	}
 	for len(out) < n {
 		var name string
 		k := w.Choose(3)
 		switch {
+		case k == 1 && len(deep) > 0 && len(out) < 2:
+			name = deep[len(out)]
 		case k == 1 && len(grp) > 0:
 			name = grp[w.Choose(len(grp))]
 		case k == 2 && allowOdd:
